@@ -149,13 +149,20 @@ RECURSIVE BumpReqs(_, _)
 BumpReqs(f, reqs) == IF reqs = <<>> THEN f
                      ELSE BumpReqs(IF Head(reqs).kw = "mutation" THEN BumpKeys(f, Head(reqs).roots) ELSE f, Tail(reqs))
 
-CallOK(c) == /\ E("C12") => /\ Count(calls, c.svc) < Count(levels, c.svc)    \* at most one call per plan level
-                            /\ ~c.dup                                         \* identical id-lookups sent once
-             /\ \A i \in DOMAIN c.reqs : ReqOK(c.svc, c.reqs[i])
+(* one batched call (Queryer.Query) made to a service: C12 *)
+QCallOK(c) == E("C12") => /\ Count(calls, c.svc) < Count(levels, c.svc)    \* at most one call per plan level
+                          /\ ~c.dup                                         \* identical id-lookups sent once
+QCallEff(c) == /\ phase = "running"
+               /\ calls' = Bump(calls, c.svc)
+               /\ UNCHANGED <<W, op, phase, levels, mroots, faults>>
+QCall(c) == QCallOK(c) /\ QCallEff(c)
+
+(* one HTTP call received by a service, with its sub-requests: C02, C06 *)
+CallOK(c) == \A i \in DOMAIN c.reqs : ReqOK(c.svc, c.reqs[i])
 
 CallEff(c) ==
            /\ phase = "running"
-           /\ calls' = Bump(calls, c.svc)
+           /\ UNCHANGED calls
            /\ mroots' = IF op.kind = "mutation" THEN BumpReqs(mroots, c.reqs) ELSE mroots
            /\ UNCHANGED <<W, op, phase, levels, faults>>
 
